@@ -631,6 +631,8 @@ class World(object):
                     emit([], '_%d = desync_scheduler::scheduler::<\'_>() -> [return: bb%d, unwind continue]' % (sr, len(blocks) + 1))
                     emit([], '_%d = desync_scheduler::Scheduler::despawn_threads_if_overloaded(copy _%d) -> [return: bb%d, unwind continue]' % (fresh(), sr, len(blocks) + 1))
                     emit([], '_%d = __despawned() -> [return: bb%d, unwind continue]' % (fresh(), len(blocks) + 1))
+                elif kind == 'wait_gate':
+                    emit([], '_%d = __gate_wait(const %d_usize) -> [return: bb%d, unwind continue]' % (fresh(), op[1], len(blocks) + 1))
                 elif kind == 'd_give':
                     dv = dvars[op[1]]
                     emit([], '_%d = __give(const %d_usize, move _%d) -> [return: bb%d, unwind continue]' % (fresh(), op[2], dv, len(blocks) + 1))
@@ -875,14 +877,28 @@ fn scen::DropFlag::drop(_1: &mut DropFlag) -> () {
         t0 = time.time()
         # slot sequence: R passes over the thread order, or an explicit sequence of thread names (`seq`, a targeted context bound:
         # every schedule whose sequence of thread segments embeds into it is covered, each slot taking 0..B visible steps)
+        runfree = set()
         if seq is not None:
             byname = {t.name: t for t in ths}
-            slots = [(i, byname[n]) for i, n in enumerate(seq)]
+            slots = [(i, byname[n.rstrip('!')]) for i, n in enumerate(seq)]
+            # 'A!': the thread runs until it finishes or blocks, without budget variables (a deterministic segment: used for a prefix in which
+            # the thread is alone, where every interleaving is equivalent; a restriction of the schedules covered, stated in the bounds)
+            runfree = set(i for i, n in enumerate(seq) if n.endswith('!'))
         else:
             slots = [(r, th) for r in range(R) for th in ths]
         if True:
             for r, th in slots:
                 prev = TRUE
+                if r in runfree:
+                    for j in range(4 * B):
+                        if not th.live(): break
+                        m.now = K
+                        took = m.step(th, TRUE, slot=(r, th.tid), stepno=j)
+                        K += 1
+                        if took is FALSE: break
+                    else: raise EncodeError('run-free slot %d of %s does not block or finish within %d steps' % (r, th.name, 4 * B))
+                    if verbose: print('  slot r=%d %-4s (run-free) positions=%d nodes=%d t=%.1fs' % (r, th.name, len(th.states), nodes(), time.time() - t0))
+                    continue
                 for j in range(B):
                     if not th.live(): break
                     a = ActVar('a_%d_%d_%d' % (r, th.tid, j), (r, th.tid), j)
